@@ -56,6 +56,8 @@ def walk(n):
 
 EXTRA = ("-DNDEBUG",)
 ALLOC = {"blobCreate"}
+RAWALLOC = {"memAlloc", "malloc"}          # blocks without the blob wrapper: must be memWipe'd before memFree
+RAWRESIZE = {"memRealloc", "realloc", "calloc"}   # not understood inside err_t functions (fail-closed)
 RESIZE = {"blobResize"}
 CLOSE = {"blobClose"}
 FREE = {"memFree", "free"}
@@ -227,6 +229,7 @@ class Fn:
                     if k is None:
                         raise Unhandled("%s of a non-lvalue" % cn)
                     self.blob_id(k)
+        self.rawsize = {}      # raw (memAlloc) variable -> source text of the size it was allocated with
         # `t = blobResize(x, …)` into a temporary t ≠ x (x keeps its block when the call fails)
         self.rtemp = {}
         for n in walk(self.body):
@@ -257,6 +260,9 @@ class Fn:
                 r = strip(rhs)
                 if r["kind"] == "CallExpr" and callee_name(r) in ALLOC | RESIZE and tgt not in self.rtemp:
                     self.blob_id(tgt)
+                if r["kind"] == "CallExpr" and callee_name(r) in RAWALLOC:
+                    self.blob_id(tgt)
+                    self.rawsize[tgt] = self.text(r["inner"][1]) if len(r["inner"]) > 1 else "?"
         if len(self.codes) > 1:
             # only the variable that is returned/tested most is tracked; others are opaque
             pass
@@ -287,6 +293,21 @@ class Fn:
                 if src - self.derived.get(tgt, set()):
                     self.derived.setdefault(tgt, set()).update(src)
                     changed = True
+
+    def text(self, e):
+        """source text of an expression (whitespace-normalised); '?' if it cannot be located"""
+        b, en = e.get("range", {}).get("begin", {}), e.get("range", {}).get("end", {})
+        bo = b.get("offset", b.get("expansionLoc", {}).get("offset"))
+        eo = en.get("offset", en.get("expansionLoc", {}).get("offset"))
+        tl = en.get("tokLen", en.get("expansionLoc", {}).get("tokLen", 1))
+        if bo is None or eo is None:
+            return "?"
+        try:
+            with open(os.path.join(repo(), self.src), "rb") as fh:
+                fh.seek(bo)
+                return re.sub(r"\s+", "", fh.read(eo + tl - bo).decode("utf8", "replace"))
+        except OSError:
+            return "?"
 
     def is_ptr_expr(self, e):
         t = e.get("type", {}).get("qualType", "")
@@ -443,6 +464,16 @@ class Fn:
             v = self.blob_id(tk)
             out.append([("allocOk", v), ("allocFail", v)])
             return
+        if r["kind"] == "CallExpr" and callee_name(r) in RAWALLOC:
+            for a in r["inner"][1:]:
+                self.ev_expr(a, out)
+            if tk is None:
+                raise Unhandled("memAlloc assigned to a non-lvalue")
+            v = self.blob_id(tk)
+            out.append([("rawOk", v), ("rawFail", v)])
+            return
+        if r["kind"] == "CallExpr" and callee_name(r) in RAWRESIZE:
+            raise Unhandled("%s in an err_t function" % callee_name(r))
         if tk is not None and lv_key(rhs) in self.rtemp and self.rtemp[lv_key(rhs)] == tk:
             return                       # `x = t` after a successful resize into the temporary: no event
         if r["kind"] == "CallExpr" and callee_name(r) in RESIZE:
@@ -477,7 +508,7 @@ class Fn:
     def ev_call(self, e, out):
         cn = callee_name(e)
         args = e["inner"][1:]
-        if cn in ALLOC | RESIZE:
+        if cn in ALLOC | RESIZE | RAWALLOC | RAWRESIZE:
             raise Unhandled("%s result not assigned to a variable" % cn)
         if cn in CLOSE | FREE:
             k = lv_key(args[0])
@@ -504,6 +535,10 @@ class Fn:
         for v in uses:
             out.append([("use", v)])
         out.append([("call", self.call_id(cn))])
+        if cn == "memWipe" and len(args) == 2:
+            k = lv_key(args[0])
+            if k in self.rawsize and self.text(args[1]) == self.rawsize[k] != "?":
+                out.append([("wipe", self.blobs.index(k))])      # full-size wipe of a raw block
         if cn in VERIFY:
             # result pending; `to_code` is patched to True by ev_assign when the call is `code = V(…)`
             out.append([("vcall", False)])
@@ -551,7 +586,7 @@ class Fn:
             r = strip(x["inner"][1])
             if r["kind"] == "CallExpr" and callee_name(r) in RESIZE and lv_key(x["inner"][0]) in self.rtemp:
                 return ("rtemp", x, False)
-            if r["kind"] == "CallExpr" and callee_name(r) in ALLOC | RESIZE:
+            if r["kind"] == "CallExpr" and callee_name(r) in ALLOC | RESIZE | RAWALLOC:
                 return ("alloc", x, False)
         return None
 
@@ -900,9 +935,10 @@ def translate_file(src):
             f = Fn(n, src)
             cfg = f.run()
             chk = checks_of(f)
+            rng = range_checks_of(f)
             done.append({"name": f.name, "src": src, "line": f.line, "params": f.params, "blobs": f.blobs,
                          "outs": f.outs, "calls": f.calls, "cfg": cfg, "nconds": f.nconds,
-                         "static": n.get("storageClass") == "static", "checks": chk})
+                         "static": n.get("storageClass") == "static", "checks": chk, "ranges": rng})
         except Unhandled as e:
             bad.append("unhandled:%s:%s" % (n.get("name"), e))
         except (KeyError, IndexError, TypeError) as e:
@@ -1016,6 +1052,70 @@ def translate_all():
     fns.sort(key=lambda f: (f["src"], f["line"] or 0))
     mark_discards(fns)
     return fns, bad
+
+
+# --------------------------------------------------------------------------- C09: private-key range checks
+def range_checks_of(f):
+    """`if (COND) { …; return ERR_BAD_PRIVKEY; }` anywhere in the body, with COND built by || && ! from
+         wwIsZero(d, _)                      -> ('zero',)            d == 0
+         wwCmp(d, BOUND, _) OP 0             -> ('cmp', OP)          d OP bound
+         wwGetBits(d, r, _) != 0 / == 0      -> ('cmp', '>=') / ('cmp', '<')   with bound 2^r
+    over ONE key variable d.  Returns [(ir, line)]; a guard of ERR_BAD_PRIVKEY (504) of another shape is
+    reported as ('other', text)."""
+    out = []
+
+    def has_ret504(n):
+        for m in walk(n):
+            if m["kind"] == "ReturnStmt" and m.get("inner") and int_const(m["inner"][0]) == 504:
+                return True
+            if m["kind"] == "BinaryOperator" and m.get("opcode") == "=" and int_const(m["inner"][1]) == 504:
+                return True
+        return False
+
+    class No(Exception):
+        pass
+
+    def cond(c, keys):
+        c = strip(c)
+        k = c["kind"]
+        if k == "BinaryOperator" and c["opcode"] in ("||", "&&"):
+            return ("or" if c["opcode"] == "||" else "and", cond(c["inner"][0], keys), cond(c["inner"][1], keys))
+        if k == "UnaryOperator" and c["opcode"] == "!":
+            return ("not", cond(c["inner"][0], keys))
+        if k == "CallExpr" and callee_name(c) == "wwIsZero":
+            keys.add(lv_key(c["inner"][1]))
+            return ("zero",)
+        if k == "BinaryOperator" and c["opcode"] in (">=", ">", "<", "<=", "==", "!="):
+            a, b = strip(c["inner"][0]), c["inner"][1]
+            if a["kind"] == "CallExpr" and int_const(b) == 0:
+                if callee_name(a) == "wwCmp":
+                    keys.add(lv_key(a["inner"][1]))
+                    return ("cmp", c["opcode"])
+                if callee_name(a) == "wwGetBits" and c["opcode"] in ("!=", "=="):
+                    keys.add(lv_key(a["inner"][1]))
+                    return ("cmp", ">=" if c["opcode"] == "!=" else "<")
+        raise No()
+    for n in walk(f.body):
+        if n["kind"] == "IfStmt" and len(n["inner"]) >= 2 and has_ret504(n["inner"][1]):
+            # only guards whose then-arm itself returns 504 (not an enclosing if further up)
+            inner_ifs = [m for m in walk(n["inner"][1]) if m["kind"] == "IfStmt" and has_ret504(m)]
+            if inner_ifs:
+                continue
+            line = n.get("range", {}).get("begin", {}).get("line") or n.get("loc", {}).get("line")
+            try:
+                keys = set()
+                ir = cond(n["inner"][0], keys)
+                if len(keys) == 1 and None not in keys:
+                    out.append((ir, sorted(keys)[0]))
+                elif len(keys) == 2 and None not in keys and ir[0] == "or":
+                    # two keys tested side by side (pfokMTI: x and u): each disjunct is a check of its own
+                    for part in (ir[1], ir[2]):
+                        out.append((part, "+".join(sorted(keys))))
+                else:
+                    out.append((("other",), "several keys"))
+            except No:
+                out.append((("other",), f.text(n["inner"][0])[:80]))
+    return out
 
 
 # --------------------------------------------------------------------------- C09: argument-check cascade
